@@ -335,11 +335,11 @@ class Exec:
             for s1, v in self.ev(vals[0], st, d):
                 t = truth(v, s1)
                 if isinstance(e.op, ast.And):
-                    sa = s1.copy(); sa.assume(z3.Not(t)); out.append((sa, mkbool(False)))
-                    sb = s1.copy(); sb.assume(t); out += rec(vals[1:], sb)
+                    sa = s1.copy(); sa.assume_branch(z3.Not(t)); out.append((sa, mkbool(False)))
+                    sb = s1.copy(); sb.assume_branch(t); out += rec(vals[1:], sb)
                 else:
-                    sa = s1.copy(); sa.assume(t); out.append((sa, mkbool(True)))
-                    sb = s1.copy(); sb.assume(z3.Not(t)); out += rec(vals[1:], sb)
+                    sa = s1.copy(); sa.assume_branch(t); out.append((sa, mkbool(True)))
+                    sb = s1.copy(); sb.assume_branch(z3.Not(t)); out += rec(vals[1:], sb)
             return [(s, v) for s, v in out if feasible(s.pc)]
         return rec(e.values, st)
 
@@ -348,7 +348,7 @@ class Exec:
         for s1, c in self.ev(e.test, st, d):
             t = truth(c, s1)
             for br, cond in ((e.body, t), (e.orelse, z3.Not(t))):
-                s2 = s1.copy(); s2.assume(cond)
+                s2 = s1.copy(); s2.assume_branch(cond)
                 if feasible(s2.pc):
                     out += self.ev(br, s2, d)
         return out
